@@ -63,6 +63,9 @@ def cases(tier, seed):
     ndyn = 60 if tier == "quick" else 1500
     for j in range(0, ndyn, 10):
         out.append({"kind": "dynamic", "from": j, "count": 10, "seed": seed})
+    nshape = 40 if tier == "quick" else 400
+    for j in range(0, nshape, 8):
+        out.append({"kind": "dynamic-shapes", "from": j, "count": 8, "seed": seed})
     for reg in ["ytk", "cidar", "ecoflex", "plant"]:
         out.append({"kind": "registry-history", "reg": reg, "queries": names if tier == "thorough" else names[::3], "seed": seed})
     sample = names if tier == "thorough" else names[:: max(1, len(names) // 16)]
@@ -91,12 +94,24 @@ def probes(seed, cls):
     return out
 
 
-def answer(seed, cls, texts=None):
+_texts = {}
+
+
+def probe_texts(seed, cls):
+    """probe records of a kit class, generated in a child of their own (generating them calls structure() of the
+    class, its ancestors and siblings, which must not be part of any history or baseline)"""
+    key = (seed, gen.class_name(cls))
+    if key not in _texts:
+        _texts[key] = in_child(lambda: probes(seed, cls))
+    return _texts[key]
+
+
+def answer(seed, cls, texts):
     from Bio.Seq import Seq
     from moclo.record import CircularRecord
 
     out = []
-    for s in (texts or probes(seed, cls)):
+    for s in texts:
         e = cls(CircularRecord(Seq(s), "p"))
         try:
             if e.is_valid():
@@ -150,7 +165,8 @@ _baseline = {}
 def baseline(seed, name):
     if name not in _baseline:
         cls = gen.class_by_name(name)
-        _baseline[name] = in_child(lambda: answer(seed, cls))
+        t = probe_texts(seed, cls)
+        _baseline[name] = in_child(lambda: answer(seed, cls, t))
     return _baseline[name]
 
 
@@ -198,18 +214,24 @@ def execute(mat, ctx):
     if kind == "pairs":
         for a, b in mat["pairs"]:
             A, B = gen.class_by_name(a), gen.class_by_name(b)
-            got = in_child(lambda: (answer(seed, A), {"answers": answer(seed, B), "stale": stale(B)})[1])
+            ta, tb = probe_texts(seed, A), probe_texts(seed, B)
+            got = in_child(lambda: (answer(seed, A, ta), {"answers": answer(seed, B, tb), "stale": stale(B)})[1])
             judge(ctx, seed, [a], b, got, baseline(seed, b))
-        ctx.sample({"kind": "pair", "history": [mat["pairs"][0][0]], "query": mat["pairs"][0][1], "probes": probes(seed, gen.class_by_name(mat["pairs"][0][1]))[:2]}, cap=1)
+        # (probe texts are produced inside a child as well: the worker itself never calls structure() or validates)
+        ctx.sample({"kind": "pair", "history": [mat["pairs"][0][0]], "query": mat["pairs"][0][1],
+                    "probes": probe_texts(seed, gen.class_by_name(mat["pairs"][0][1]))[:2]}, cap=1)
     elif kind == "long":
         for h in mat["histories"]:
             prim, q = h[:-1], h[-1]
             Q = gen.class_by_name(q)
 
+            tq = probe_texts(seed, Q)
+            tp = [(gen.class_by_name(a), probe_texts(seed, gen.class_by_name(a))) for a in prim]
+
             def run():
-                for a in prim:
-                    answer(seed, gen.class_by_name(a))
-                return {"answers": answer(seed, Q), "stale": stale(Q)}
+                for A, ta in tp:
+                    answer(seed, A, ta)
+                return {"answers": answer(seed, Q, tq), "stale": stale(Q)}
 
             judge(ctx, seed, prim, q, in_child(run), baseline(seed, q))
         ctx.sample({"kind": "long", "history": mat["histories"][0][:-1], "query": mat["histories"][0][-1]}, cap=1)
@@ -223,9 +245,10 @@ def execute(mat, ctx):
             out = {}
             for n in mat["queries"]:
                 Q = gen.class_by_name(n)
-                out[n] = in_child(lambda: {"answers": answer(seed, Q), "stale": stale(Q)})
+                out[n] = in_child(lambda: {"answers": answer(seed, Q, qtexts[n]), "stale": stale(Q)})
             return out
 
+        qtexts = {n: probe_texts(seed, gen.class_by_name(n)) for n in mat["queries"]}
         got = in_child(run, timeout=300)
         for n in mat["queries"]:
             judge(ctx, seed, ["load:" + mat["reg"]], n, got[n], baseline(seed, n), extra="registry-loaded-before-query")
@@ -240,27 +263,97 @@ def execute(mat, ctx):
             sig = (gen.rand_dna(rng, 4), gen.rand_dna(rng, 4))
             prime_with = rng.choice([rb, pb.__subclasses__()[0] if pb.__subclasses__() else rb, rb])
 
-            def mk_and_query(prime):
-                if prime:
-                    answer(seed, prime_with) if prime_with in gen.concrete_kit_classes() else None
+            kit_primer = prime_with in gen.concrete_kit_classes()
+            tprime = probe_texts(seed, prime_with) if kit_primer else None
+
+            def dyn_texts():
                 Dyn = type(str("Dyn%d" % j), (pb, rb), {"signature": sig})
                 r2 = gen.rng_for(seed, PROP, "dynprobe", j)
                 texts = []
-                for src in (Dyn, rb, prime_with if prime_with in gen.concrete_kit_classes() else rb):
+                for src in (Dyn, rb, prime_with if kit_primer else rb):
                     s = gen.instance(r2, src.structure(), run_max=12) + gen.rand_dna(r2, 12)
                     texts.append(rot_left(s, r2.randrange(len(s))))
-                return {"answers": answer(seed, Dyn, texts), "stale": stale(Dyn)}
+                return texts
+
+            dtexts = in_child(dyn_texts)
+
+            def mk_and_query(prime):
+                if prime and kit_primer:
+                    answer(seed, prime_with, tprime)
+                Dyn = type(str("Dyn%d" % j), (pb, rb), {"signature": sig})
+                return {"answers": answer(seed, Dyn, dtexts), "stale": stale(Dyn)}
 
             base = in_child(lambda: mk_and_query(False))["answers"]
             got = in_child(lambda: mk_and_query(True))
             judge(ctx, seed, [gen.class_name(prime_with) if prime_with in gen.concrete_kit_classes() else prime_with.__name__],
                   "Dyn%d(%s,%s)%s" % (j, pb.__name__, rb.__name__, sig), got, base, extra="dynamic-subclass-defined-after-priming")
+    elif kind == "dynamic-shapes":
+        # user-defined classes related to kit classes in the ways a shared cache could confuse:
+        #  (a) "twin": same cutter and signature as a kit part but the other role (module <-> vector);
+        #  (b) "empty": a subclass of a concrete kit part that adds nothing the pattern depends on (docstring / helper method only);
+        #  (c) "resigned": a subclass of a concrete kit part with another signature.
+        # each is queried after priming a relative (generic ancestor, direct parent, twin) and compared with a child that queried it first;
+        # the kit relative is queried after priming the dynamic class as well.
+        from moclo.core.parts import AbstractPart
+        from moclo.core.modules import AbstractModule
+        from moclo.core.vectors import AbstractVector
+
+        parts = [c for c in gen.concrete_kit_classes() if issubclass(c, AbstractPart) and not isinstance(c.__dict__.get("structure"), staticmethod)]
+        for j in range(mat["from"], mat["from"] + mat["count"]):
+            rng = gen.rng_for(seed, PROP, "shape", j)
+            P = rng.choice(parts)
+            shape = ["twin", "empty", "resigned"][j % 3]
+            kit_role = next((b for b in P.__mro__[1:] if issubclass(b, (AbstractModule, AbstractVector)) and not issubclass(b, AbstractPart)
+                             and b in gen.concrete_kit_classes()), None)
+            if kit_role is None:
+                continue
+            partbase = next(b for b in P.__mro__[1:] if issubclass(b, AbstractPart) and b.__dict__.get("signature", 0) is NotImplemented)
+            V, M = gen.generic_classes(str(P.cutter))
+
+            def make():
+                if shape == "twin":
+                    other = V if issubclass(P, AbstractModule) else M
+                    return type(str("Twin" + P.__name__), (partbase, other), {"signature": tuple(P.signature)})
+                if shape == "empty":
+                    return type(str("Lab" + P.__name__), (P,), {"__doc__": "lab-specific alias", "label": lambda self: "x"})
+                return type(str("Re" + P.__name__), (P,), {"signature": (gen.rand_dna(gen.rng_for(seed, "sig", j), len(P.signature[0])), P.signature[1])})
+
+            def texts(D):
+                r2 = gen.rng_for(seed, PROP, "shapeprobe", j)
+                out = []
+                for src in (D, P, kit_role):
+                    s = gen.instance(r2, src.structure(), run_max=12) + gen.rand_dna(r2, 12)
+                    out.append(rot_left(s, r2.randrange(len(s))))
+                return out
+
+            primers = {"generic-ancestor": [kit_role], "direct-relative": [P], "both": [kit_role, P], "generic-classes": [V, M]}
+            texts_kit = probe_texts(seed, P)[:2]
+            t = in_child(lambda: texts(make()))
+            for pname, prim in primers.items():
+                def run(prime, query_kit=False):
+                    if prime and not query_kit:
+                        for c in prim:
+                            answer(seed, c, texts_kit)
+                    D = make()
+                    if query_kit:
+                        if prime:
+                            answer(seed, D, t)
+                        return {"answers": answer(seed, P, t), "stale": stale(P)}
+                    return {"answers": answer(seed, D, t), "stale": stale(D)}
+
+                base = in_child(lambda: run(False))["answers"]
+                got = in_child(lambda: run(True))
+                judge(ctx, seed, [c.__name__ for c in prim], "%s-of-%s" % (shape, P.__name__), got, base, extra="dynamic-%s-queried-after-%s" % (shape, pname))
+            base = in_child(lambda: run(False, True))["answers"]
+            got = in_child(lambda: run(True, True))
+            judge(ctx, seed, ["%s-of-%s" % (shape, P.__name__)], gen.class_name(P), got, base, extra="kit-class-queried-after-dynamic-%s" % shape)
+        ctx.sample({"kind": "dynamic-shapes", "shapes": ["twin", "empty", "resigned"], "example_parent": P.__name__}, cap=1)
     elif kind == "crosscheck":
         # the fork baseline itself against real fresh interpreters
         for n in mat["classes"]:
             code = ("import sys, json; sys.path.insert(0, %r); from mon import boot; boot.boot(); from mon import gen; "
-                    "from mon.props import C06; print(json.dumps(C06.answer(%d, gen.class_by_name(%r))))" % (
-                        os.path.dirname(os.path.dirname(os.path.dirname(os.path.abspath(__file__)))), seed, n))
+                    "from mon.props import C06; print(json.dumps(C06.answer(%d, gen.class_by_name(%r), %r)))" % (
+                        os.path.dirname(os.path.dirname(os.path.dirname(os.path.abspath(__file__)))), seed, n, probe_texts(seed, gen.class_by_name(n))))
             env = dict(os.environ, PYTHONHASHSEED="0", PYTHONWARNINGS="ignore")
             p = subprocess.run([sys.executable, "-c", code], stdout=subprocess.PIPE, stderr=subprocess.PIPE, timeout=120, env=env)
             if p.returncode != 0:
